@@ -153,6 +153,14 @@ Theorem table_text_dtype_refuted :
     table_dtypes t = [[85; 57; 54]] /\ table_dtypes t' = [[85; 51; 48; 55; 50]].
 Proof. exact table_text_dtype_refuted_lemma. Qed.
 
+(** falsy is not None: the index name "" (every table made by [DictArray.to_table()]) is kept as an index *)
+Theorem table_empty_index_name_kept :
+  table_okb ex_table_empty_index = true /\
+  forall d, table_to_dict ex_table_empty_index = JObj d ->
+    exists t', table_of_dict d = Ok t' /\ t_index t' = Some [] /\ t_index t' <> None /\
+      observe_table t' = observe_table ex_table_empty_index.
+Proof. exact empty_index_name_kept_lemma. Qed.
+
 Theorem table_guard_example : table_okb ex_table = true.
 Proof. exact ex_table_ok. Qed.
 
